@@ -466,4 +466,12 @@ def cases(tier, seed):
     add('case_kfl_vs_lattice', ls=2, dims=4, units=1, terms=2, required=False)
     add('case_pwl_fn', nk=5, units=2, mono='increasing', per_unit_input=True, required=False, timeout=600)
     add('case_rtl', num=4, rank=3, n_unc=2, n_inc=3, seed=seed, required=False)
+    add('case_kfl_vs_lattice', ls=3, dims=3, units=2, terms=2, required=False)
+    add('case_pwl_fn', nk=5, units=1, mono='none', cyclic=True, required=False, timeout=600)
+    add('case_pwl_fn', nk=4, units=3, mono='increasing', missing_input=0.0, omin=-1.0, omax=0.0, per_unit_input=True, required=False, timeout=600)
+    add('case_cdf_fn', dim=6, nk=2, units=3, activation='sigmoid', reduction='none', sparsity=3, required=False)
+    add('case_cdf_fn', dim=4, nk=3, units=4, activation='relu6', reduction='mean', sparsity=2, scaling='learned_per_input', required=False)
+    add('case_parallel', n=4, single=False, required=False)
+    add('case_rtl', num=3, rank=2, n_unc=2, n_inc=2, separate=True, param='kronecker_factored', required=False)
+    add('case_rtl', num=5, rank=2, n_unc=4, n_inc=3, average=True, seed=seed + 1, required=False)
   return out
